@@ -31,12 +31,21 @@ PAIRS = [("equatorial2ecliptical", "ecliptical2equatorial"),
          ("equatorial2galactic", "galactic2equatorial")]
 
 
-def eval_conv(repo, qual):
+def eval_conv(repo, qual, _depth=0):
     fn = repo.func(MOD, qual)
     names = [a.arg for a in fn.args.args]
     canon = ["A", "D", "E"]
     arg_terms = {n: ("angle", T.sym(c)) for n, c in zip(names, canon)}
     t = ret_term(repo, MOD, qual, arg_terms=arg_terms)
+    if t[0] == "call" and isinstance(t[1], str) and t[1].startswith(MOD + ".") and t[1].split(".", 1)[1] in repo.mod(MOD).functions and _depth < 2:
+        # delegation to a sibling conversion (ecliptical2equatorial(l, b, e) = equatorial2ecliptical(l, b, -e)): that function's own term
+        # with the actual arguments substituted
+        callee = t[1].split(".", 1)[1]
+        sub, _ = eval_conv(repo, callee, _depth + 1)
+        acts = [a for a in t[2:] if a[0] != "kw"]
+        if len(acts) == 3 and all(a[0] == "angle" for a in acts):
+            sub = T.subst(sub, {T.sym(c): T.sym("TMP_" + c) for c in canon})
+            t = T.subst(sub, {T.sym("TMP_" + c): a[1] for c, a in zip(canon, acts)})
     if t[0] != "tuple" or len(t) != 3:
         raise AnalysisError("%s: return value is not a pair" % qual)
     return t, len(names)
@@ -74,6 +83,12 @@ def split_lon(lon):
 
 
 POLE_DIVISION = {}
+SATURATION = {}
+
+
+def poly_eval(t, zv):
+    from ..poly import eval_numeric
+    return eval_numeric(t, {"NUM_ZSAT": float(zv)})
 
 
 def lat_asin(lat, qual=None):
@@ -81,6 +96,39 @@ def lat_asin(lat, qual=None):
     the horizontal radius of the same unit vector.  The quotient form divides by R, which vanishes at the pole of the target system:
     recorded in POLE_DIVISION (the property's domain includes the poles)."""
     r = radians_of_angle(lat)
+    if r is not None and r[0] == "phi":
+        # a clamped arc sine:  asin(Z) while |Z| < 1 (or <= 1), a saturated value otherwise.  Outside the open interval Z is +-1 up to rounding,
+        # so the saturated value must be +pi/2 for Z >= 1 and -pi/2 for Z <= -1: it is evaluated for both signs of Z
+        from ..rules import eval_exact, NotEvaluable, phi_leaves
+        leaves = list(phi_leaves(r))
+        inner = [l for _, l in leaves if l[0] == "call" and l[1] == "asin" and len(l) == 3]
+        if len(inner) >= 1 and all(l == inner[0] for l in inner):
+            Z = inner[0][2]
+            ZS = T.sym("NUM_ZSAT")
+            rz = T.subst(r, {Z: ZS, inner[0]: T.sym("NUM_ASIN")})
+            if not any(x == Z for x in T.walk(rz)):
+                import math
+                try:
+                    vals = {}
+                    for zv in (Fraction(-3, 2), Fraction(-1), Fraction(1), Fraction(3, 2)):
+                        leaf = None
+                        for conds, l in phi_leaves(rz):
+                            if all(eval_exact(c, {ZS: zv}) is True for c in conds):
+                                leaf = l
+                                break
+                        if leaf is None:
+                            raise NotEvaluable("no branch")
+                        vals[zv] = None if leaf == T.sym("NUM_ASIN") else poly_eval(leaf, zv)
+                    bad = [zv for zv, v in vals.items() if v is not None and abs(v - math.copysign(math.pi / 2, zv)) > 1e-12]
+                    dom = [zv for zv, v in vals.items() if v is None and abs(zv) > 1]
+                    if bad and qual is not None:
+                        SATURATION[qual] = "for Z = %s the saturated branch of the clamped arc sine gives %.6f rad instead of %.6f" % (
+                            float(bad[0]), vals[bad[0]], math.copysign(math.pi / 2, bad[0]))
+                    if not dom:
+                        return Z
+                except (NotEvaluable, TypeError, ValueError, KeyError):
+                    pass
+        return None
     if r is None or r[0] != "call":
         return None
     if r[1] == "asin" and len(r) == 3:
@@ -286,11 +334,12 @@ def run(repo, rep, tier):
     consts = {}
     n_unread = 0
     POLE_DIVISION.clear()
+    SATURATION.clear()
     for f, g in PAIRS:
         for q in (f, g):
             rep.fn(MOD, q)
-            ret, npar = eval_conv(repo, q)
             try:
+                ret, npar = eval_conv(repo, q)
                 W, norm_ok, info = matrix_of(alg, q, ret, consts)
             except AnalysisError as e:
                 # a result in a form this rule does not read is no evidence against the conversion
@@ -302,6 +351,9 @@ def run(repo, rep, tier):
                               "the latitude-like result is atan(Z / R) with R = %s = sqrt(1 - Z^2): R is 0 for the direction that maps onto the pole of the target system "
                               "(zenith / ecliptic or galactic pole), which the property includes - ZeroDivisionError there (atan2(Z, R) or asin(Z) have no such point)"
                               % POLE_DIVISION[q], obligation=True)
+            if q in SATURATION:
+                rep.violation("R-E4-ID", MOD + "." + q, "saturation", "latitude-like result: %s - the pole of the target system in the opposite hemisphere is returned "
+                              "(the property covers every direction including the poles)" % SATURATION[q], obligation=True)
             if W is None:
                 continue
             mats[q] = W
@@ -337,8 +389,19 @@ def run(repo, rep, tier):
         prod2 = matmul(alg, Mf, subst_back(alg, Mg))
     # R-POS
     for q in ("equatorial2ecliptical", "ecliptical2equatorial", "equatorial2galactic", "galactic2equatorial"):
-        outs = outcomes(repo, MOD, q)
-        rets = [o for o in outs if o.kind == "ret"]
+        def returns_of(qq, depth=0):
+            """value-returning outcomes, a plain delegation `return sibling(...)` replaced by the sibling's own returns"""
+            out = []
+            for o in outcomes(repo, MOD, qq):
+                if o.kind != "ret":
+                    continue
+                v = o.value
+                if v[0] == "call" and isinstance(v[1], str) and v[1].startswith(MOD + ".") and v[1].split(".", 1)[1] in repo.mod(MOD).functions and depth < 2:
+                    out.extend(returns_of(v[1].split(".", 1)[1], depth + 1))
+                else:
+                    out.append(o)
+            return out
+        rets = returns_of(q)
         bad = [o for o in rets if not (o.value[0] == "tuple" and is_pos_angle(o.value[1]))]
         if not rets or bad:
             rep.violation("R-POS", MOD + "." + q, "lon-not-normalised",
